@@ -5,7 +5,7 @@ CONSTANTS
   KeySet <- mcKeys3
   TimeSet = {1, 2}
   VLens = {0, 4}
-  MaxOff = 3
+  MaxOff = 4
   MaxBatch = 2
   MaxSets = 2
   Rollovers = {60, 1000}
